@@ -7,6 +7,7 @@ package main
 import (
 	"fmt"
 	"math/big"
+	"sort"
 	"strings"
 )
 
@@ -32,28 +33,108 @@ func ElemSort(s Sort) Sort {
 type Term struct {
 	S    string
 	Sort Sort
+	lin  *linForm // canonical linear form of an Int term (nil: the term is an atom)
+}
+
+// linForm: k + sum coeff[a]*a over atom strings a. Add/Sub/Neg/Mul-by-literal keep terms in
+// this canonical shape, so arithmetically equal index and length expressions that are built
+// in different orders (program vs specification) render to the same string.
+type linForm struct {
+	k     *big.Int
+	coeff map[string]*big.Int
+}
+
+func linOf(t Term) *linForm {
+	if t.lin != nil {
+		return t.lin
+	}
+	if v, ok := litVal(t); ok {
+		return &linForm{k: v, coeff: map[string]*big.Int{}}
+	}
+	return &linForm{k: big.NewInt(0), coeff: map[string]*big.Int{t.S: big.NewInt(1)}}
+}
+
+func linCombine(a *linForm, b *linForm, sb int64) *linForm {
+	out := &linForm{k: new(big.Int).Add(a.k, new(big.Int).Mul(b.k, big.NewInt(sb))), coeff: map[string]*big.Int{}}
+	for k, v := range a.coeff {
+		out.coeff[k] = new(big.Int).Set(v)
+	}
+	for k, v := range b.coeff {
+		d := new(big.Int).Mul(v, big.NewInt(sb))
+		if c, ok := out.coeff[k]; ok {
+			c.Add(c, d)
+			if c.Sign() == 0 {
+				delete(out.coeff, k)
+			}
+		} else if d.Sign() != 0 {
+			out.coeff[k] = d
+		}
+	}
+	return out
+}
+
+func linScale(a *linForm, m *big.Int) *linForm {
+	out := &linForm{k: new(big.Int).Mul(a.k, m), coeff: map[string]*big.Int{}}
+	if m.Sign() == 0 {
+		return out
+	}
+	for k, v := range a.coeff {
+		out.coeff[k] = new(big.Int).Mul(v, m)
+	}
+	return out
+}
+
+func linTerm(l *linForm) Term {
+	if len(l.coeff) == 0 {
+		return BigLit(l.k)
+	}
+	keys := make([]string, 0, len(l.coeff))
+	for k := range l.coeff {
+		keys = append(keys, k)
+	}
+	sort.Strings(keys)
+	var parts []string
+	for _, k := range keys {
+		c := l.coeff[k]
+		switch {
+		case c.Cmp(big.NewInt(1)) == 0:
+			parts = append(parts, k)
+		default:
+			parts = append(parts, "(* "+BigLit(c).S+" "+k+")")
+		}
+	}
+	if l.k.Sign() != 0 {
+		parts = append(parts, BigLit(l.k).S)
+	}
+	if len(parts) == 1 {
+		if l.k.Sign() == 0 && l.coeff[keys[0]].Cmp(big.NewInt(1)) == 0 {
+			return Term{S: parts[0], Sort: SInt} // a bare atom
+		}
+		return Term{S: parts[0], Sort: SInt, lin: l}
+	}
+	return Term{S: "(+ " + strings.Join(parts, " ") + ")", Sort: SInt, lin: l}
 }
 
 func (t Term) String() string { return t.S }
 func (t Term) IsZero() bool   { return t.S == "" }
 
 var (
-	TTrue  = Term{"true", SBool}
-	TFalse = Term{"false", SBool}
+	TTrue  = Term{S: "true", Sort: SBool}
+	TFalse = Term{S: "false", Sort: SBool}
 )
 
 func IntLit(n int64) Term {
 	if n < 0 {
-		return Term{fmt.Sprintf("(- %d)", -n), SInt}
+		return Term{S: fmt.Sprintf("(- %d)", -n), Sort: SInt}
 	}
-	return Term{fmt.Sprintf("%d", n), SInt}
+	return Term{S: fmt.Sprintf("%d", n), Sort: SInt}
 }
 
 func BigLit(n *big.Int) Term {
 	if n.Sign() < 0 {
-		return Term{"(- " + new(big.Int).Neg(n).String() + ")", SInt}
+		return Term{S: "(- " + new(big.Int).Neg(n).String() + ")", Sort: SInt}
 	}
-	return Term{n.String(), SInt}
+	return Term{S: n.String(), Sort: SInt}
 }
 
 func BoolLit(b bool) Term {
@@ -101,7 +182,7 @@ func app(sort Sort, op string, args ...Term) Term {
 		b.WriteString(a.S)
 	}
 	b.WriteByte(')')
-	return Term{b.String(), sort}
+	return Term{S: b.String(), Sort: sort}
 }
 
 func Not(a Term) Term {
@@ -112,7 +193,7 @@ func Not(a Term) Term {
 		return TTrue
 	}
 	if strings.HasPrefix(a.S, "(not ") {
-		return Term{a.S[5 : len(a.S)-1], SBool}
+		return Term{S: a.S[5 : len(a.S)-1], Sort: SBool}
 	}
 	return app(SBool, "not", a)
 }
@@ -241,59 +322,24 @@ func Lt(a, b Term) Term { return cmp("<", a, b, func(c int) bool { return c < 0 
 func Ge(a, b Term) Term { return Le(b, a) }
 func Gt(a, b Term) Term { return Lt(b, a) }
 
-func Add(a, b Term) Term {
-	av, aok := litVal(a)
-	bv, bok := litVal(b)
-	if aok && bok {
-		return BigLit(new(big.Int).Add(av, bv))
-	}
-	if aok && av.Sign() == 0 {
-		return b
-	}
-	if bok && bv.Sign() == 0 {
-		return a
-	}
-	return app(SInt, "+", a, b)
-}
+func Add(a, b Term) Term { return linTerm(linCombine(linOf(a), linOf(b), 1)) }
 
-func Sub(a, b Term) Term {
-	av, aok := litVal(a)
-	bv, bok := litVal(b)
-	if aok && bok {
-		return BigLit(new(big.Int).Sub(av, bv))
-	}
-	if bok && bv.Sign() == 0 {
-		return a
-	}
-	if a.S == b.S {
-		return IntLit(0)
-	}
-	return app(SInt, "-", a, b)
-}
+func Sub(a, b Term) Term { return linTerm(linCombine(linOf(a), linOf(b), -1)) }
 
-func Neg(a Term) Term {
-	if av, ok := litVal(a); ok {
-		return BigLit(new(big.Int).Neg(av))
-	}
-	return app(SInt, "-", a)
-}
+func Neg(a Term) Term { return linTerm(linScale(linOf(a), big.NewInt(-1))) }
 
 func Mul(a, b Term) Term {
-	av, aok := litVal(a)
-	bv, bok := litVal(b)
-	if aok && bok {
-		return BigLit(new(big.Int).Mul(av, bv))
+	if av, ok := litVal(a); ok {
+		return linTerm(linScale(linOf(b), av))
 	}
-	if aok && av.Cmp(big.NewInt(1)) == 0 {
-		return b
+	if bv, ok := litVal(b); ok {
+		return linTerm(linScale(linOf(a), bv))
 	}
-	if bok && bv.Cmp(big.NewInt(1)) == 0 {
-		return a
+	x, y := a.S, b.S
+	if y < x {
+		x, y = y, x
 	}
-	if (aok && av.Sign() == 0) || (bok && bv.Sign() == 0) {
-		return IntLit(0)
-	}
-	return app(SInt, "*", a, b)
+	return Term{S: "(* " + x + " " + y + ")", Sort: SInt}
 }
 
 // EDiv / EMod are SMT-LIB (Euclidean) div and mod.
@@ -329,7 +375,7 @@ func Store(arr, i, v Term) Term {
 }
 
 func ConstArr(sort Sort, v Term) Term {
-	return Term{fmt.Sprintf("((as const %s) %s)", sort, v.S), sort}
+	return Term{S: fmt.Sprintf("((as const %s) %s)", sort, v.S), Sort: sort}
 }
 
 func Forall(vars []Term, body Term, pats ...Term) Term {
@@ -353,7 +399,7 @@ func Forall(vars []Term, body Term, pats ...Term) Term {
 		b.WriteString(body.S)
 	}
 	b.WriteString(")")
-	return Term{b.String(), SBool}
+	return Term{S: b.String(), Sort: SBool}
 }
 
 func Exists(vars []Term, body Term) Term {
@@ -368,12 +414,12 @@ func Exists(vars []Term, body Term) Term {
 	b.WriteString(") ")
 	b.WriteString(body.S)
 	b.WriteString(")")
-	return Term{b.String(), SBool}
+	return Term{S: b.String(), Sort: SBool}
 }
 
 func App(sort Sort, fn string, args ...Term) Term {
 	if len(args) == 0 {
-		return Term{fn, sort}
+		return Term{S: fn, Sort: sort}
 	}
 	return app(sort, fn, args...)
 }
